@@ -45,6 +45,7 @@ func TestVerifC07(t *testing.T) {
 		vfC09Gen(t, sc, w)
 		return
 	}
+	vfC09QuickSession = true
 	var gotUser int32
 	SetVerifHook(func(point string) {
 		if point == "dispatch.gotUser" {
